@@ -70,7 +70,11 @@ func genC01Vol(r *Rng) *c01VolW {
 	w.NV = []int{1025, 1100, 2049, 2500, 4097, 4300}[r.Intn(6)] + r.Intn(3)
 	w.NE = []int{1025, 1100, 2049, 2500, 4097, 4300}[r.Intn(6)] + r.Intn(3)
 	var prog []*gripql.GraphStatement
-	switch r.Intn(8) {
+	switch r.Intn(9) {
+	case 8:
+		// more distinct keys than any in-memory set a distinct step may keep
+		w.NV, w.NE = 10002+r.Intn(300), 0
+		prog = gen.StmtsOf(gen.V(), gen.Distinct(), gen.Count())
 	case 0:
 		prog = gen.StmtsOf(gen.V(), gen.Count())
 	case 1:
